@@ -133,6 +133,7 @@ def mon_c07(run):
     hdr = 5 if sc.get('framing', sc['kind']) == 'udp' else 9
     req = F.parse_req(r['sends'][0]['data']) if r['sends'] else None
     whole = F.valid_response(req) if req else b''
+    if req and req['kind'] == 'tcp' and spec.get('mbap'): whole = F.apply_mbap(whole, spec['mbap'])
     delay_ms = int(spec.get('delay', sc.get('timeout', 1) / 4) * 1000)
     if spec.get('second', 'exact') == 'exact' and spec['frag'] >= hdr and spec['frag'] < len(whole) and delay_ms < T:
         if out[0] != 'ok' or out[1] != whole or len(r['sends']) != 1:
